@@ -92,6 +92,26 @@ func checkEncode(fs *gen.FileSpec, labels map[string]int) (string, bool) {
 	if err != nil {
 		return "HARNESS: " + err.Error(), false
 	}
+	if fs.Prelude != "" {
+		// an Encode call that fails comes first; what the next call writes
+		// must not depend on it
+		if f0, err := gen.BuildFile(fs); err == nil {
+			oracle.Catch(func() {
+				switch fs.Prelude {
+				case "badstring":
+					f0.FileId.ProductName = "ab\xff\xfe"
+					var sink bytes.Buffer
+					if fit.Encode(&sink, f0, order(fs.BigEndian)) != nil {
+						labels["after a failing Encode"]++
+					}
+				case "failwriter":
+					if fit.Encode(&refusingWriter{left: 9}, f0, order(fs.BigEndian)) != nil {
+						labels["after a failing Encode"]++
+					}
+				}
+			})
+		}
+	}
 	var buf bytes.Buffer
 	var eerr error
 	if p := oracle.Catch(func() { eerr = fit.Encode(&buf, f, order(fs.BigEndian)) }); p != nil {
@@ -217,6 +237,19 @@ func checkEncode(fs *gen.FileSpec, labels map[string]int) (string, bool) {
 	return "", true
 }
 
+// refusingWriter accepts a few bytes and then fails.
+type refusingWriter struct{ left int }
+
+func (w *refusingWriter) Write(p []byte) (int, error) {
+	if len(p) > w.left {
+		n := w.left
+		w.left = 0
+		return n, fmt.Errorf("verif: writer refuses further data")
+	}
+	w.left -= len(p)
+	return len(p), nil
+}
+
 func specHasBadString(fs *gen.FileSpec) bool {
 	bad := false
 	visit := func(ms gen.MsgSpec) {
@@ -339,6 +372,7 @@ func TestC05(t *testing.T) {
 			o := gen.DefaultFileOpts()
 			o.OutDomain = true
 			fs := gen.GenFile(gen.D{T: rt}, o)
+			fs.Prelude = []string{"", "", "", "badstring", "failwriter"}[rapid.IntRange(0, 4).Draw(rt, "prelude")]
 			labels := map[string]int{}
 			rec.Eval("files", 1)
 			msg, ok := checkEncode(fs, labels)
@@ -355,6 +389,7 @@ func TestC05(t *testing.T) {
 			}
 			rec.Class("wire-fields-compared", int64(labels["wire-fields"]))
 			rec.Class("encode-error (no bytes written)", int64(labels["encode-error"]))
+			rec.Class("encoded right after a failing Encode call", int64(labels["after a failing Encode"]))
 			if rec.WantSample() && len(fs.Slots) <= 2 && unionLabel(fs) {
 				rec.Sample(fs)
 			}
